@@ -3,7 +3,7 @@
 refactoring that touches one of the same files (both patches must apply, the result must
 compile); the seed's own property check must still report the combination.  Analysis only.
 
-usage: cross.py [--jobs N] [--seeds glob] [--json out]"""
+usage: cross.py [--jobs N] [--seeds glob] [--refs glob] [--json out]"""
 import concurrent.futures, glob, json, os, re, sys
 sys.path.insert(0, os.path.dirname(os.path.abspath(__file__)))
 import mutest
@@ -19,6 +19,7 @@ def main():
     jobs = 8
     out_json = None
     seeds_glob = os.path.join(V, "seeded", "*", "patch.diff")
+    refs_glob = os.path.join(V, "refactors", "*", "patch.diff")
     a = sys.argv[1:]
     while a:
         if a[0] == "--jobs":
@@ -27,10 +28,12 @@ def main():
             seeds_glob = a[1]; a = a[2:]
         elif a[0] == "--json":
             out_json = a[1]; a = a[2:]
+        elif a[0] == "--refs":
+            refs_glob = a[1]; a = a[2:]
         else:
             a = a[1:]
     seeds = sorted(glob.glob(seeds_glob))
-    refs = sorted(glob.glob(os.path.join(V, "refactors", "*", "patch.diff")))
+    refs = sorted(glob.glob(refs_glob))
     rf = {r: files_of(r) for r in refs}
     work = []
     for s in seeds:
